@@ -669,11 +669,21 @@ func c09Subscription(c *run.Ctx) int {
 	}
 	// conditions (literal) on the selections INSIDE the event: applied every time an event is resolved for the subscriber,
 	// on fields, inline fragments and fragment spreads alike
+	// ... and conditions that are variables of the subscription request (left to their default, supplied, supplied over a
+	// default): every event is answered with the variables the subscription was made with
 	lits := []struct {
 		dir   string
 		stays bool
-	}{{`@include(if: true)`, true}, {`@skip(if: true)`, false}, {`@skip(if: false)`, true}, {`@include(if: false)`, false},
-		{`@skip(if: false) @include(if: true)`, true}, {`@include(if: true) @skip(if: true)`, false}, {`@include(if: false) @skip(if: false)`, false}}
+		head  string
+		vars  map[string]interface{}
+	}{{`@include(if: true)`, true, "", nil}, {`@skip(if: true)`, false, "", nil}, {`@skip(if: false)`, true, "", nil}, {`@include(if: false)`, false, "", nil},
+		{`@skip(if: false) @include(if: true)`, true, "", nil}, {`@include(if: true) @skip(if: true)`, false, "", nil}, {`@include(if: false) @skip(if: false)`, false, "", nil},
+		{`@include(if: $on)`, true, `($on: Boolean = true)`, nil}, {`@skip(if: $on)`, false, `($on: Boolean = true)`, nil},
+		{`@include(if: $v)`, false, `($v: Boolean!)`, map[string]interface{}{"v": false}}, {`@skip(if: $v)`, true, `($v: Boolean!)`, map[string]interface{}{"v": false}},
+		{`@include(if: $v)`, true, `($v: Boolean!)`, map[string]interface{}{"v": true}},
+		{`@skip(if: $a) @include(if: $b)`, false, `($a: Boolean = false, $b: Boolean = true)`, map[string]interface{}{"a": true}},
+		{`@include(if: $b) @skip(if: $a)`, true, `($a: Boolean = false, $b: Boolean = true)`, map[string]interface{}{"b": true}},
+		{`@include(if: $b) @skip(if: $a)`, false, `($a: Boolean = false, $b: Boolean = true)`, map[string]interface{}{"b": false}}}
 	for li, lt := range lits {
 		for form := 0; form < 2; form++ {
 			var clock int64
@@ -685,13 +695,13 @@ func c09Subscription(c *run.Ctx) int {
 			}
 			var cur int64 = 1
 			ro.pending = &hSub{sid: 0, log: lg, failOn: map[int]bool{}, field: "listen", current: &cur}
-			text := "subscription S { listen(topic: \"a\") { id ...F " + lt.dir + " ... on Event " + lt.dir + " { tag } n " + lt.dir + " } }\nfragment F on Event { inner { v } }"
+			text := "subscription S" + lt.head + " { listen(topic: \"a\") { id ...F " + lt.dir + " ... on Event " + lt.dir + " { tag } n " + lt.dir + " } }\nfragment F on Event { inner { v } }"
 			if form == 1 {
-				text = "fragment F on Event { inner { v } }\nsubscription S { listen(topic: \"a\") { ... on Event { ...F " + lt.dir + " } id n " + lt.dir + " ... " + lt.dir + " { tag } } }"
+				text = "fragment F on Event { inner { v } }\nsubscription S" + lt.head + " { listen(topic: \"a\") { ... on Event { ...F " + lt.dir + " } id n " + lt.dir + " ... " + lt.dir + " { tag } } }"
 			}
 			var res map[string]interface{}
 			pv, _ := run.Protect(func() {
-				res = root.ResolveString(text, "", nil)
+				res = root.ResolveString(text, "", copyVars(lt.vars))
 				for k := 0; k < 2; k++ {
 					_, _ = root.AddEvent("a", &subEvent{uid: int64(k + 1), id: fmt.Sprintf("e%d", k+1), n: 5, tag: "t", v: 7})
 				}
